@@ -108,3 +108,14 @@ Definition run_dec (m : dec_model) : list Z :=
   | DecRaise c => [c]
   | DecUnknown => [98]
   end.
+
+(* outcome of the protocol's own decode logic on given base-decoded fields, with the final value of every field *)
+Fixpoint lookup_ov (k : string) (ov : list (string * pval)) : option pval :=
+  match ov with [] => None | (k', v) :: r => if string_dec k k' then Some v else lookup_ov k r end.
+Definition run_dec_full (names : list string) (flds : list iw) (m : dec_model) : list Z :=
+  match m with
+  | DecOk ov => 0 :: map (fun q => match lookup_ov (fst q) ov with Some v => pval_z v | None => value (snd q) end)
+                         (combine names flds)
+  | DecRaise c => [c]
+  | DecUnknown => [98]
+  end.
